@@ -277,6 +277,14 @@ theorem C27_call_unknown (sigs : Sigs) (name : String) (args : List Arg) (hs : s
     ∃ e, memoryAccesses sigs (.call name args) = .error e := by
   simp [memoryAccesses, callAccesses, hs]
 
+/-- `MemoryAccesses::union` (the fold step of every definition body, also driven directly by the harness)
+is the componentwise set union. -/
+theorem C27_union_spec (a b : Accesses) (r : Region) :
+    (r ∈ (a.union b).reads ↔ r ∈ a.reads ∨ r ∈ b.reads) ∧
+    (r ∈ (a.union b).writes ↔ r ∈ a.writes ∨ r ∈ b.writes) ∧
+    (r ∈ (a.union b).captures ↔ r ∈ a.captures ∨ r ∈ b.captures) := by
+  simp [Accesses.union]
+
 /-! ### the Bool checker run on the implementation's output is the specification -/
 
 /-- `checkB` (evaluated by the driver on the IMPLEMENTATION's reported sets) decides `Correct`. -/
